@@ -62,7 +62,7 @@ def gen_case(rng, i):
     elif kind == "member":
         c["behs"] = boundary_behaviours(rng, L, vs)[:7]
     elif kind == "empty":
-        shape = rng.choice(["feasible", "contradiction", "thin_infeasible", "thin_feasible", "cycle", "few_rows", "repeated_lhs"])
+        shape = rng.choice(["feasible", "contradiction", "thin_infeasible", "thin_feasible", "cycle", "few_rows", "repeated_lhs", "late_link"])
         if shape == "contradiction":
             r = rng.choice(L)
             c["L"] = L + [({v: -a for v, a in r[0].items()}, -r[1] - rng.choice([1, 2, 3]))]
@@ -70,6 +70,14 @@ def gen_case(rng, i):
             r = rng.choice(L)
             m = rng.choice([1, 2.0**-3, 2.0**-7, 2.0**-10])
             c["L"] = L + [({v: -a for v, a in r[0].items()}, -r[1] + (m if shape == "thin_feasible" else -m))]
+        elif shape == "late_link" and nv >= 2:
+            # rows over disjoint variables first, the row that connects them last: the contradiction needs all of them
+            a_, b_ = vs[0], vs[1]
+            k = rng.choice([1, 2, 3])
+            c["L"] = [({a_: 1}, 0), ({b_: 1}, 0), ({a_: -1, b_: -1}, -k)] if rng.random() < 0.7 else [({a_: 1}, 0), ({b_: -1}, 0), ({a_: -1, b_: 1}, -k)]
+            if nv > 2 and rng.random() < 0.5:
+                c["L"].insert(rng.randint(0, 2), ({vs[2]: 1}, 3))
+            c["keep_order"] = True
         elif shape == "repeated_lhs":
             # the same left-hand side three times with different bounds: a loose copy first, the contradiction, the tight copy last
             r = rng.choice(L)
